@@ -557,7 +557,15 @@ func checkGapTree(t *treegen.Tree, top []byte, res *treegen.Result, registered b
 }
 
 func checkCorpusTree(tc *treegen.TreeCase, res *treegen.Result) {
-	g := checkGapTree(tc.Tree, tc.Data, res, true)
+	// The "nested gap / outer leaf" clause is for well-formed inputs only: in a
+	// corrupt or forced decode two SIBLING structures can legitimately claim the
+	// same bytes (zip: a local file whose mutated compressed size reaches over
+	// the following local files, which are found through the central
+	// directory), and the gaps of the data decoded inside the first then lie
+	// over fields of the others.  Nothing is wrong with gap filling there
+	// (false alarm of the thorough tier, test9.zip with byte 18 set to 1, forced).
+	wellFormed := (tc.Req.Mut.Kind == "none" || tc.Req.Mut.Kind == "") && !tc.Req.Force && !tc.Failed
+	g := checkGapTree(tc.Tree, tc.Data, res, wellFormed)
 	if tc.Failed {
 		res.Label("failed-decode(undecoded-tail)")
 	}
